@@ -203,6 +203,8 @@ def rand_program(rng):
         u = rand_use_bt(rng, m, 0, macros)
         # actuals inside `"...`" must be single plain tokens (Appendix A.4): keep f0 simple for such macros
         items.append(pp.item("use", u["n"], a=u["a"]))
+        if u["a"] and rng.random() < 0.2:
+            items[-1]["sp"] = True              # `M (args): white space in front of the argument list
         items.append(pp.tok("post%d" % rng.randint(0, 99)))
         items.append(pp.nl())
         if rng.random() < 0.2:
